@@ -663,9 +663,13 @@ func refHeader(stream []byte, mtype string, strict bool) refResult {
 			if pos == len(stream) && !sawAny {
 				return refResult{V: mustFail} // clean end of stream
 			}
-			// partial header line at end of stream: the documented format cannot complete;
-			// what an implementation does with the fragment first is not specified
-			return refResult{V: unspec}
+			// partial header line at end of stream: the header block can never be completed, so no record
+			// may be produced from it (a record cut off by the end of the stream is an error). The one
+			// exception left open is a lone CR after a complete block (CR LF CR <EOF>).
+			if string(stream[pos:]) == "\r" {
+				return refResult{V: unspec}
+			}
+			return refResult{V: mustFail}
 		}
 		line := stream[pos : pos+nl]
 		pos += nl + 1
